@@ -101,6 +101,18 @@ theorem split_fresh_sep (h : Heap) (o : Obj) (cut : Bool) (bounds : List Nat) (w
   refine ⟨e, fun p hp => ⟨((f p hp).sep wo).1, fun ops => ?_⟩⟩
   rw [sep_implies_noninterference _ _ o ops (e.wf wo) ((f p hp).sep wo).1, e.view wo]
 
+/-- **size boundary**: the early-out of every splitter (fewer than two poses; nothing to cut) returns exactly one part,
+a deep copy: it consists of new arrays only, the source is not even read into a cache, and whatever is done to the
+part leaves the source unchanged.  (Before the fix this branch returned the source object itself:
+`split_nocut_returns_parent`.) -/
+theorem split_single_pose_fresh (h : Heap) (o : Obj) (bounds : List Nat) (wo : Wf h o) :
+    (splitNew h o false bounds).2.2 = [(deepcopy h o).2] ∧
+    (splitNew h o false bounds).2.1 = o ∧
+    FreshSince h (deepcopy h o).2 ∧
+    ∀ ops, view (hrun (deepcopy h o).1 (deepcopy h o).2 ops).1 o = view h o := by
+  refine ⟨by simp [splitNew], by simp [splitNew], fun a ha => ((deepcopy_spec h o).2 a ha).1, fun ops => ?_⟩
+  exact (derived_then_mutated_leaves_source h o [] ops wo).1
+
 /-- after a split the parent (possibly with its matrix cache filled) still reaches only arrays it
 reached before or new ones, none of which belongs to a part -/
 theorem split_parent_sep_parts (h : Heap) (o : Obj) (cut : Bool) (bounds : List Nat) :
